@@ -183,7 +183,9 @@ def _compute_integral_ir(
         entity_type,
         initial_terminals.values(),
         existing_tables,
-        use_sum_factorization=p["sum_factorization"],
+        # The option has no effect on integrals it does not apply to (facet
+        # integrals, simplices, elements without a tensor product factorisation)
+        use_sum_factorization=p["sum_factorization"] and quadrature_rule.has_tensor_factors,
         is_mixed_dim=is_mixed_dim,
         rtol=p["table_rtol"],
         atol=p["table_atol"],
